@@ -71,27 +71,36 @@ def classify(rej, lines):
     return props, prog
 
 
-def validate(trace_path, wd, timeout):
+UNIFY_CFG = """SPECIFICATION Spec
+INVARIANTS
+  MachineAcyclic
+  MachineNoAnon
+  Consumed
+CHECK_DEADLOCK FALSE
+"""
+
+
+def validate(trace_path, wd, timeout, module="TraceSolver", cfg=None):
     for f in os.listdir(vcheck.SPEC):
         if f.endswith(".tla"):
             shutil.copy(os.path.join(vcheck.SPEC, f), wd)
-    with open(os.path.join(wd, "TraceSolver.cfg"), "w") as f:
-        f.write(TRACE_CFG)
+    with open(os.path.join(wd, module + ".cfg"), "w") as f:
+        f.write(cfg or TRACE_CFG)
     env = dict(os.environ, TRACE=trace_path,
                JAVA_TOOL_OPTIONS="-Xss512m -Dtlc2.tool.queue.IStateQueue=StateDeque")
     out_path = os.path.join(wd, "tlc-trace.out")
     t0 = time.time()
     with open(out_path, "w") as out:
         p = subprocess.run(["timeout", str(timeout), "tlc", "-workers", "1", "-metadir", os.path.join(wd, "md"), "-cleanup",
-                            "-noGenerateSpecTE", "-config", "TraceSolver.cfg", "TraceSolver.tla"],
+                            "-noGenerateSpecTE", "-config", module + ".cfg", module + ".tla"],
                            cwd=wd, env=env, stdout=out, stderr=subprocess.STDOUT)
     shutil.rmtree(os.path.join(wd, "md"), ignore_errors=True)
     res = dict(accepted=None, rejected=None, rejections=[], violated=[], states=0, transitions=0, wall=time.time() - t0, rc=p.returncode, out=out_path)
     for line in open(out_path, errors="replace"):
         if line.startswith('<<"VALIDATED"'):
             m = re.findall(r"\d+", line)
-            res["validated"] = (int(m[0]), int(m[1]), int(m[2]))       # runs accepted, runs rejected, trace lines
-            if int(m[1]) == 0:
+            res["validated"] = tuple(int(x) for x in m)       # TraceSolver: runs accepted, runs rejected, trace lines
+            if module == "TraceSolver" and int(m[1]) == 0:
                 res["accepted"] = (int(m[0]), int(m[2]))
         elif line.startswith('<<"REJECTED"'):
             res["rejections"].append(line.strip())
@@ -122,7 +131,62 @@ def parse_rejected(line):
 MACHINE_INVARIANTS = "TraceRefines TFresh TAcyclic TCutCommits TNoRetry TCutIsLocal".split()
 
 
+UNIFY_KINDS = {"success": {"C06"}, "values": {"C06"}, "cycle": {"C08"}, "reverse-cycle": {"C08"}, "anon-bound": {"C09"},
+               "reverse-success": {"C07"}, "reverse-values": {"C07"}, "panic": {"C06", "C08"}, "crash": {"C06", "C08"},
+               "hang": {"C06", "C08"}, "died-outside-a-call": {"C06"}}
+
+
+def run_unify(jobname, job, prop, tier, seed, wd, acc):
+    """Sessions of unifications over random terms recorded from the real unify(), validated against Unify.tla."""
+    os.makedirs(wd, exist_ok=True)
+    runs = job["runs"][tier]
+    trace = os.path.join(wd, "utrace.ndjson")
+    p = subprocess.run([vcheck.HARNESS_BIN, "gen-unify-trace", trace, str(seed), str(runs)], cwd=wd,
+                       stdout=subprocess.PIPE, stderr=subprocess.PIPE, text=True)
+    if p.returncode != 0:
+        raise vcheck.ToolError("gen-unify-trace failed: %s" % p.stderr[-1000:])
+    lines = open(trace).read().split("\n")
+    res = validate(trace, wd, job.get("timeout", {}).get(tier, 1800), module="TraceUnify", cfg=UNIFY_CFG)
+    if res["violated"]:
+        raise vcheck.ToolError("the specification itself violates %s on a recorded input (Unify.tla): see %s" % (res["violated"], res["out"]))
+    if "validated" not in res:
+        raise vcheck.ToolError("trace validation ended without a verdict (exit %d, %s)" % (res["rc"], res["out"]))
+    nok, nskip, nrej, nanon = res["validated"][:4]
+    vcheck.log("trace validation %s: %d sessions, %d unifications validated (%d with $_), %d sessions outside the claim, %d rejected, %d states, %.1fs"
+               % (jobname, runs, nok, nanon, nskip, nrej, res["states"], res["wall"]))
+    for line in res["rejections"]:
+        m = re.search(r'kind \|-> "([^"]*)"', line)
+        kind = m.group(1) if m else "?"
+        if kind.startswith("SPEC-ERROR"):
+            raise vcheck.ToolError("Unify.tla is not symmetric on a recorded input: %s" % line[:600])
+        m = re.search(r'at \|-> (\d+)', line); at = int(m.group(1)) if m else 0
+        anon = "anon |-> TRUE" in line
+        m = re.search(r'case \|-> ("(?:[^"\\]|\\.)*")', line)
+        case = json.loads(json.loads(m.group(1))) if m and m.group(1) != '""' else {"t": "utrace", "line": at}
+        props = set(UNIFY_KINDS.get(kind, {"C06"}))
+        if anon and kind in ("success", "values", "reverse-success", "reverse-values"):
+            props.add("C09")
+        if prop in props:
+            ev = lines[at - 1] if 0 < at <= len(lines) else ""
+            acc["bad"].append({"job": jobname, "case": case,
+                               "obs": {"prop": prop, "kind": "trace-" + kind,
+                                       "detail": "recorded unification differs from Unify.tla in `%s` (trace line %d): engine logged %s" % (kind, at, ev[:300])}})
+    mine = nanon if prop == "C09" else nok
+    acc["evaluations"] += mine
+    acc["kinds"]["%s:unify-trace-accepted" % prop] += mine
+    for i in range(mine):
+        acc["distinct"].add("utrace-%s-%d-%d" % (jobname, seed, i))
+    if len(acc["samples"]) < 4:
+        acc["samples"].append({"job": jobname, "recorded_session": [json.loads(l) for l in lines[:7] if l]})
+    return dict(states=res["states"], transitions=res["transitions"], traces=mine,
+                summary={"job": jobname, "module": "TraceUnify", "sessions_recorded": runs, "unifications_validated": nok,
+                         "with_anonymous": nanon, "sessions_outside_claim": nskip, "sessions_rejected": nrej,
+                         "events": len(lines), "states": res["states"], "tlc_s": round(res["wall"], 1)})
+
+
 def run(jobname, job, prop, tier, seed, wd, acc):
+    if job.get("module") == "TraceUnify":
+        return run_unify(jobname, job, prop, tier, seed, wd, acc)
     os.makedirs(wd, exist_ok=True)
     runs = job["runs"][tier]
     trace = os.path.join(wd, "trace.ndjson")
